@@ -29,7 +29,20 @@ pub const SCRATCH_WORDS: u64 = 259;
 pub const SCRATCH_PAIRS_PER_RUN: u64 = 64;
 pub const SYSTEMATIC_SCRATCH: u64 = (SCRATCH_WORDS * SCRATCH_WORDS + SCRATCH_PAIRS_PER_RUN - 1) / SCRATCH_PAIRS_PER_RUN;
 
+/// Run indices from here on are "deep" runs (thorough tier): larger stores, longer histories,
+/// more threads and clients, longer words. Same generators, wider bounds.
+pub const DEEP_BASE: u64 = 1 << 40;
+
+thread_local! {
+    static DEEP: std::cell::Cell<bool> = std::cell::Cell::new(false);
+}
+
+fn deep() -> bool {
+    DEEP.with(|d| d.get())
+}
+
 pub fn generate(prop: &str, scenario: &str, seed: u64, run: u64) -> (Config, Vec<Op>) {
+    DEEP.with(|d| d.set(run >= DEEP_BASE));
     let mut rng = Rng::new(seed, scenario_tag(scenario) ^ (crate::rng::fnv_str(prop) << 8), run);
     match scenario {
         "hist" => {
@@ -115,6 +128,8 @@ enum RatingMode {
     FewValues,
     Random,
     AllEqual,
+    /// pairwise distinct values around and far beyond 2^31 (the properties other than C01 do not bound ratings)
+    Huge,
 }
 
 struct GStore {
@@ -191,6 +206,12 @@ impl GStore {
                 if rng.chance(1, 8) { (1usize << 31) - 1 - rng.below(3) } else { rng.below(1 << 31) }
             }
             RatingMode::AllEqual => 10,
+            RatingMode::Huge => loop {
+                let r = if rng.chance(1, 2) { (1usize << 31) - 4 + rng.below(8) } else { rng.below(1usize << 62) };
+                if !self.used_ratings.contains(&r) {
+                    break r;
+                }
+            },
         };
         self.used_ratings.push(r);
         r
@@ -272,11 +293,11 @@ fn pollute_op(rng: &mut Rng, t: usize) -> Op {
 }
 
 fn gen_hist(prop: &str, rng: &mut Rng) -> (Config, Vec<Op>) {
-    let threads = rng.range(1, 3);
+    let threads = if deep() { rng.range(1, 5) } else { rng.range(1, 3) };
     let capacity = *rng.pick(&[None, None, None, Some(0), Some(1), Some(2), Some(3), Some(5), Some(20)]);
     // many short, diverse runs beat a few long ones: almost half of the runs are "tiny"
     // (one or two stores of 0-3 records, 3-9 further ops)
-    let tiny = rng.chance(4, 9);
+    let tiny = !deep() && rng.chance(4, 9);
     let n_stores = if tiny {
         rng.range(1, 2)
     } else {
@@ -284,7 +305,7 @@ fn gen_hist(prop: &str, rng: &mut Rng) -> (Config, Vec<Op>) {
             0..=4 => 1,
             5..=7 => 2,
             8 => 3,
-            _ => 4,
+            _ => if deep() { rng.range(4, 6) } else { 4 },
         }
     };
     // swarm: which perturbations are enabled in this run
@@ -301,7 +322,7 @@ fn gen_hist(prop: &str, rng: &mut Rng) -> (Config, Vec<Op>) {
         "C12" => rng.weighted(&[4, 5, 1]),
         _ => rng.weighted(&[4, 5, 1]),
     } };
-    let len = if tiny { rng.range(3, 9) } else if rng.chance(1, 3) { rng.range(3, 12) } else if rng.chance(3, 4) { rng.range(13, 60) } else { rng.range(61, 200) };
+    let len = if deep() { rng.range(100, 600) } else if tiny { rng.range(3, 9) } else if rng.chance(1, 3) { rng.range(3, 12) } else if rng.chance(3, 4) { rng.range(13, 60) } else { rng.range(61, 200) };
     // op mix
     let w_add = rng.range(1, 6);
     let w_clear = if f_clear { rng.range(1, 3) } else { 0 };
@@ -321,13 +342,14 @@ fn gen_hist(prop: &str, rng: &mut Rng) -> (Config, Vec<Op>) {
         let n0 = match size_class {
             0 => rng.range(0, 3),
             1 => rng.range(0, 30),
-            _ => rng.range(31, 400),
+            _ => if deep() { rng.range(200, 1500) } else { rng.range(31, 400) },
         };
         let pool_size = if rng.chance(1, 3) { rng.range(1, 6) } else { rng.range(3, n0.max(3) * 2) };
         let rating_mode = match prop {
-            "C12" => *rng.pick(&[RatingMode::Distinct, RatingMode::FewValues, RatingMode::FewValues, RatingMode::AllEqual, RatingMode::Random]),
-            "C06" | "C07" => *rng.pick(&[RatingMode::Distinct, RatingMode::Distinct, RatingMode::Distinct, RatingMode::FewValues]),
-            _ => *rng.pick(&[RatingMode::Distinct, RatingMode::FewValues, RatingMode::Random, RatingMode::AllEqual]),
+            "C12" => *rng.pick(&[RatingMode::Distinct, RatingMode::FewValues, RatingMode::FewValues, RatingMode::AllEqual, RatingMode::Random, RatingMode::Distinct, RatingMode::FewValues, RatingMode::Huge]),
+            "C06" | "C07" => *rng.pick(&[RatingMode::Distinct, RatingMode::Distinct, RatingMode::Distinct, RatingMode::FewValues, RatingMode::Distinct, RatingMode::Distinct, RatingMode::FewValues, RatingMode::Huge]),
+            "C01" => *rng.pick(&[RatingMode::Distinct, RatingMode::FewValues, RatingMode::Random, RatingMode::AllEqual]),
+            _ => *rng.pick(&[RatingMode::Distinct, RatingMode::FewValues, RatingMode::Random, RatingMode::AllEqual, RatingMode::Distinct, RatingMode::FewValues, RatingMode::Random, RatingMode::Huge]),
         };
         let mut g = GStore { s, lang: lang.clone(), thread, held: Vec::new(), pool: make_pool(rng, &lang, pool_size), next_id: 0, rating_mode, used_ratings: Vec::new(), limit: 10 };
         ops.push(Op::Create { s, t: thread, lang });
@@ -466,7 +488,7 @@ fn gen_registry(_prop: &str, rng: &mut Rng) -> (Config, Vec<Op>) {
     // but a process-wide registry would satisfy the property as well and must not alarm.
     let pools: [[usize; 3]; 2] = [[0, 1, 2], [7, 8, usize::MAX]];
     let capacity = *rng.pick(&[None, None, Some(1), Some(3), Some(20)]);
-    let n_clients = rng.range(2, 5);
+    let n_clients = if deep() { rng.range(4, 6) } else { rng.range(2, 5) };
     let mut clients: Vec<(usize, usize)> = Vec::new();
     while clients.len() < n_clients {
         let t = if clients.len() < 2 { 0 } else { rng.below(2) }; // at least two ids share thread 0
@@ -489,7 +511,7 @@ fn gen_registry(_prop: &str, rng: &mut Rng) -> (Config, Vec<Op>) {
             C { live: false, g: GStore { s: i, lang, thread: t, held: Vec::new(), pool, next_id: 0, rating_mode: *rng.pick(&[RatingMode::Distinct, RatingMode::FewValues, RatingMode::Random]), used_ratings: Vec::new(), limit: 10 } }
         })
         .collect();
-    let len = if rng.chance(1, 2) { rng.range(10, 30) } else { rng.range(31, 150) };
+    let len = if deep() { rng.range(150, 600) } else if rng.chance(1, 2) { rng.range(10, 30) } else { rng.range(31, 150) };
     let mut ops = Vec::new();
     for _ in 0..len {
         let ci = rng.below(cs.len());
@@ -547,10 +569,10 @@ fn gen_replica(_prop: &str, rng: &mut Rng) -> (Config, Vec<Op>) {
     let threads = rng.range(1, 3);
     let capacity = *rng.pick(&[None, None, Some(1), Some(3), Some(20)]);
     let lang = pick_lang(rng);
-    let limit = *rng.pick(&[1usize, 2, 3, 5, 10, 10, 100]);
-    let n_cap = if rng.chance(1, 6) { 120 } else { 24 };
+    let limit = if deep() { *rng.pick(&[10usize, 50, 100, 1000]) } else { *rng.pick(&[1usize, 2, 3, 5, 10, 10, 100]) };
+    let n_cap = if deep() { 600 } else if rng.chance(1, 6) { 120 } else { 24 };
     let n = rng.range(2, (10 * limit).min(n_cap));
-    let replicas = rng.range(2, 4);
+    let replicas = if deep() { rng.range(3, 5) } else { rng.range(2, 4) };
     // the message set: n adds with pairwise distinct ratings; titles share words so that queries hit several
     let pool_size = rng.range(2, n.max(2));
     let pool = make_pool(rng, &lang, pool_size);
@@ -703,13 +725,14 @@ fn gen_scratch(_prop: &str, rng: &mut Rng, run: u64) -> (Config, Vec<Op>) {
     }
     for _ in 0..clients {
         let t = rng.below(threads);
-        let n = if rng.chance(1, 2) { rng.range(2, 8) } else { rng.range(9, 40) };
+        let n = if deep() { rng.range(40, 120) } else if rng.chance(1, 2) { rng.range(2, 8) } else { rng.range(9, 40) };
+        let long_max = if deep() { 250 } else { 70 };
         let mut plan = Vec::new();
         for k in 0..n {
             // lengths alternate short and long so that growth, re-init and shrink-after-grow occur
             let long = if rng.chance(1, 5) { rng.chance(1, 2) } else { k % 2 == 1 };
             let alph = *rng.pick(&["aebc1_", "aebc1_", "ab", "abcdefghijklmnop", "aeiou", "bcdfg", "a1_", "аеёбв", "abcdefghijklmnopqrstuvwxyz", "abcdefghijklmnopqrstuvwxyz0123456789äöüßабвгдеёжзийклмнопрстуфхцчшщ"]);
-            let a = if long { synth_word(rng, alph, 15, 70) } else { synth_word(rng, alph, 0, 4) };
+            let a = if long { synth_word(rng, alph, 15, long_max) } else { synth_word(rng, alph, 0, 4) };
             let b = match rng.below(8) {
                 6 => {
                     // a prefix or a suffix of the first word
@@ -721,7 +744,7 @@ fn gen_scratch(_prop: &str, rng: &mut Rng, run: u64) -> (Config, Vec<Op>) {
                 0 => a.clone(),
                 1 | 2 => mutate(rng, &a, alph),
                 3 => {
-                    if long { synth_word(rng, alph, 15, 70) } else { synth_word(rng, alph, 0, 4) }
+                    if long { synth_word(rng, alph, 15, long_max) } else { synth_word(rng, alph, 0, 4) }
                 }
                 4 => synth_word(rng, alph, 0, 4),
                 _ => synth_word(rng, alph, 0, 30),
